@@ -2,8 +2,8 @@ package main
 
 import (
 	"go/token"
-	"os"
 	"go/types"
+	"os"
 	"sort"
 	"strings"
 
@@ -238,6 +238,7 @@ func (fl *Flow) Edge(fact string, c CondM) *Flow {
 	fl.specs = append(fl.specs, genSpec{fact: fact, kind: GenEdge, cond: c})
 	return fl
 }
+
 // KillEdge removes the fact on the edge where cond holds (see CondM). Together
 // with an entry fact this encodes an obligation as a fact: "no check pending".
 func (fl *Flow) KillEdge(fact string, c CondM) *Flow {
@@ -774,6 +775,75 @@ func (r *FnResult) At(m M, f func(in ssa.Instruction, s State)) int {
 				n++
 				f(in, st.clone())
 			}
+		})
+	}
+	return n
+}
+
+// AtDeep is At, and additionally descends into static callees of this module (two levels)
+// that contain a match: the callee is analysed with the state holding before the call as its
+// entry state (facts about SSA values of the caller dropped), so that moving the matched
+// instruction into a helper function does not hide it from a rule anchored on the caller.
+func (r *FnResult) AtDeep(m M, f func(in ssa.Instruction, s State)) int {
+	return r.atDeep(m, f, 0, map[*ssa.Function]bool{r.Fn: true})
+}
+
+func containsMatch(fn *ssa.Function, m M, d int, seen map[*ssa.Function]bool) bool {
+	if fn == nil || seen[fn] || len(fn.Blocks) == 0 {
+		return false
+	}
+	seen[fn] = true
+	for _, b := range fn.Blocks {
+		for _, in := range b.Instrs {
+			if _, isRet := in.(*ssa.Return); !isRet && m.F(in) {
+				return true
+			}
+			if d > 0 {
+				if call, ok := in.(*ssa.Call); ok {
+					if cal := call.Common().StaticCallee(); cal != nil && inModule(cal) && containsMatch(cal, m, d-1, seen) {
+						return true
+					}
+				}
+			}
+		}
+	}
+	return false
+}
+
+func (r *FnResult) atDeep(m M, f func(in ssa.Instruction, s State), d int, stack map[*ssa.Function]bool) int {
+	n := 0
+	for _, b := range r.Fn.Blocks {
+		r.transfer(b, r.in[b], func(in ssa.Instruction, st State) {
+			// a callee's returns are not the anchored function's returns
+			if _, isRet := in.(*ssa.Return); !(isRet && d > 0) && m.F(in) {
+				n++
+				f(in, st.clone())
+				return
+			}
+			if d >= 2 || st.top {
+				return
+			}
+			call, ok := in.(*ssa.Call)
+			if !ok {
+				return
+			}
+			cal := call.Common().StaticCallee()
+			if cal == nil || stack[cal] || !inModule(cal) || len(cal.Blocks) == 0 {
+				return
+			}
+			if !containsMatch(cal, m, 1-d, map[*ssa.Function]bool{}) {
+				return
+			}
+			entry := emptyState()
+			for k := range st.m {
+				if !isLocalFact(k) {
+					entry.add(k)
+				}
+			}
+			sub := r.fl.analyze(cal, entry, r.depth+1)
+			stack[cal] = true
+			n += sub.atDeep(m, f, d+1, stack)
+			delete(stack, cal)
 		})
 	}
 	return n
